@@ -1,4 +1,5 @@
 import BeyondVerif.Model.Iter
+import BeyondVerif.Generated.IterConst
 import BeyondVerif.Drv.Util
 namespace BeyondVerif.Drv.C08
 open BeyondVerif BeyondVerif.Drv BeyondVerif.Iter
@@ -40,10 +41,12 @@ def args? (s : String) : Option Args := do
   let kv := s.splitOn ";"
   let start ← optopt? (← field? "start" kv)
   let stop ← stop? (← field? "stop" kv)
-  let step ← optopt? (← field? "step" kv)
+  let stepS ← field? "step" kv
+  -- `S`: the object passed is `propagator.step` itself (its value is the `h` of the line, filled in by `mkWorld`'s caller)
+  let step ← if stepS = "S" then some (some (some 0)) else optopt? stepS
   let dates ← dates? (← field? "dates" kv)
   let strict ← field? "strict" kv
-  pure { start := start, stop := stop, step := step, dates := dates, strict := strict != "0" }
+  pure { start := start, stop := stop, step := step, dates := dates, strict := strict != "0", stepSame := stepS = "S" }
 
 def errStr : Err → String
   | .value => "value-error" | .attr => "attribute-error" | .type => "type-error" | .index => "index-error"
@@ -55,8 +58,9 @@ def runStr (r : Run) : String := joinWith "," (r.dates.map toString) ++ " " ++ f
 
 /-- orbit values of the harness: (object, number of changes of its elements, number of changes of its drag term);
 `Sgp4._state` sees both -/
-def mkWorld (k : Kind) (order : Nat) (h : Int) (npts : Nat) : World (Nat × Nat × Nat) :=
-  { kind := k, store := Prod.mk, sameState := fun a b => a == b, epoch := fun _ => 0, h := h, order := order, pts := (List.range npts).map (fun (j : Nat) => Int.ofNat j * h) }
+def mkWorld (k : Kind) (order : Nat) (h : Int) (npts : Nat) (rs : List Int := []) : World (Nat × Nat × Nat) :=
+  { kind := k, store := Prod.mk, sameState := fun a b => a == b, rs := fun len => rs.getD (len - 1) h,
+    stepIdent := Generated.numStepTestIsIdentity, epoch := fun _ => 0, h := h, order := order, pts := (List.range npts).map (fun (j : Nat) => Int.ofNat j * h) }
 
 def call? (s : String) : Option Call :=
   match s.splitOn "/" with
@@ -80,8 +84,12 @@ def flipOffset : Int := 31250
 def flips (_k : Kind) (p d : Int) : Bool :=
   ((p - flipOffset) / flipPeriod) % 2 != ((d - flipOffset) / flipPeriod) % 2
 
+/-- `step=S`: the value of `propagator.step` -/
+def ownStep (h : Int) (a : Args) : Args := if a.stepSame then { a with step := some (some h) } else a
+
 def histOp (k : Kind) (fuel order : Nat) (h : Int) (npts nls : Nat) (calls : List Call) : String :=
   let w := mkWorld k order h npts
+  let calls := calls.map (fun c => match c with | .iter i a ls n => Call.iter i (ownStep h a) ls n | c => c)
   let s0 : St (Nat × Nat × Nat) := { prev := List.replicate nls none }
   let (_, outs) := calls.foldl (fun (acc : St (Nat × Nat × Nat) × List String) c =>
     let (s, res) := exec (R := Nat × Nat × Nat) w (fun v _ => v) (fun _ p d => flips k p d) fuel acc.1 c
@@ -95,11 +103,12 @@ def histOp (k : Kind) (fuel order : Nat) (h : Int) (npts nls : Nat) (calls : Lis
   joinWith " | " outs
 
 def handle : List String → Option String
-  | ["c08iter", k, fuel, order, h, npts, a] =>
-    some (match kindOf? k, fuel.toNat?, order.toNat?, iOfStr? h, npts.toNat?, args? a with
-      | some k, some fuel, some order, some h, some npts, some a =>
-        runStr (iterRun (mkWorld k order h npts) fuel 0 a false).2
-      | _, _, _, _, _, _ => "bad-op")
+  | ["c08iter", k, fuel, order, h, npts, a, rs] =>
+    -- `rs`: lengths of the integration steps the real propagator took in its main loop (`-`: none recorded: all `h`)
+    some (match kindOf? k, fuel.toNat?, order.toNat?, iOfStr? h, npts.toNat?, args? a, (if rs = "-" then some [] else ints? rs) with
+      | some k, some fuel, some order, some h, some npts, some a, some rs =>
+        runStr (iterRun (mkWorld k order h npts rs) fuel 0 (ownStep h a) false).2
+      | _, _, _, _, _, _, _ => "bad-op")
   | "c08hist" :: k :: fuel :: order :: h :: npts :: nls :: calls =>
     some (match kindOf? k, fuel.toNat?, order.toNat?, iOfStr? h, npts.toNat?, nls.toNat?, calls.mapM call? with
       | some k, some fuel, some order, some h, some npts, some nls, some calls => histOp k fuel order h npts nls calls
